@@ -7,6 +7,7 @@ import (
 	"bufio"
 	"encoding/hex"
 	"encoding/json"
+	"flag"
 	"fmt"
 	"math/rand"
 	"os"
@@ -232,4 +233,57 @@ func SmallBiased(rng *rand.Rand, n int) []byte {
 		}
 	}
 	return b
+}
+
+// Main is the command line of a per-property harness binary:
+//
+//	vh-Cnn gen    -seed S -n N -out DIR      generate cases, run them on the implementation
+//	vh-Cnn replay -case FILE -out DIR        re-run the case stored in a replay file
+func Main(tie string, gen func(r *Run, n int) error, replay func(r *Run, c map[string]any) error) {
+	if len(os.Args) < 2 {
+		fmt.Fprintln(os.Stderr, "usage: gen|replay ...")
+		os.Exit(2)
+	}
+	cmd := os.Args[1]
+	fs := flag.NewFlagSet(cmd, flag.ExitOnError)
+	seed := fs.Int64("seed", 1, "seed")
+	n := fs.Int("n", 1000, "case budget")
+	out := fs.String("out", "", "output dir")
+	cf := fs.String("case", "", "replay file")
+	fs.Parse(os.Args[2:])
+	r, err := NewRun(*out, *seed, tie)
+	if err != nil {
+		fmt.Fprintln(os.Stderr, err)
+		os.Exit(3)
+	}
+	switch cmd {
+	case "gen":
+		err = gen(r, *n)
+	case "replay":
+		var b []byte
+		b, err = os.ReadFile(*cf)
+		if err == nil {
+			var obj map[string]any
+			if err = json.Unmarshal(b, &obj); err == nil {
+				c, _ := obj["case"].(map[string]any)
+				if c == nil {
+					err = fmt.Errorf("replay file carries no case (it names a theorem or correspondence instead)")
+				} else if replay == nil {
+					err = fmt.Errorf("no replay function")
+				} else {
+					err = replay(r, c)
+				}
+			}
+		}
+	default:
+		err = fmt.Errorf("unknown command %s", cmd)
+	}
+	if err != nil {
+		fmt.Fprintln(os.Stderr, "harness error:", err)
+		os.Exit(3)
+	}
+	if err := r.Close(nil); err != nil {
+		fmt.Fprintln(os.Stderr, err)
+		os.Exit(3)
+	}
 }
